@@ -9,6 +9,13 @@ the children are processed); `Obj.getModel`, `getParentOfType`, `getChildren`,
 `getChildrenOfType` (Obj/Nav.lean) mirror the navigation API, including the id set of
 `get_children` and the `hasattr(p, "parent")` loops (fuel).
 
+Objects may be instances of user classes with their own `__bool__` / `__len__` / `__iter__` /
+`__eq__` / `__hash__`.  The navigation functions never consult any of these (identity, `is not
+None`, class name), so the heap model needs nothing for them; `process_node` asks an object
+for its truth value in one place (the "Multiple assignments" guard), modelled by the parameter
+`tr : Heap → Nat → Bool` (`bool(obj)` in the current state) over which the construction
+theorems quantify.
+
 `TreeHeap h` says that the containment attributes of a heap form a forest that agrees with
 the parent pointers; reference attributes are arbitrary (cycles, back references).
 `Reach h fol r x` = `x` is `r` or is reached from `r` through containment attributes, every
@@ -21,22 +28,23 @@ theorem Inv.empty : Inv St.empty := by
 
 /-- **Model construction only produces tree-shaped heaps.**  Whatever parse tree
 `process_node` is run on (any nesting of objects, abstract / match rule nodes and
-assignments, any metamodel), if it finishes, the containment attributes and the `parent`
+assignments, any metamodel, any truthiness `tr` of the objects — falsy user class instances
+included), if it finishes, the containment attributes and the `parent`
 pointers of the resulting heap form a forest (each contained object points to its unique
 container, containers are older than their contents, nothing is contained twice), and the
 instance stack is empty again. -/
-theorem C05_build_tree (mm : Nat → List MetaAttr) (root : PT) (v : Val) (s : St)
-    (h : build mm root = some (v, s)) : TreeHeap s.heap ∧ s.stack = [] := by
-  have := (processNode_post mm root St.empty v s Inv.empty h).1
+theorem C05_build_tree (tr : Heap → Nat → Bool) (mm : Nat → List MetaAttr) (root : PT) (v : Val) (s : St)
+    (h : build tr mm root = some (v, s)) : TreeHeap s.heap ∧ s.stack = [] := by
+  have := (processNode_post tr mm root St.empty v s Inv.empty h).1
   exact ⟨this.inv.tree, this.stack⟩
 
 /-- **Parent links.**  In the heap built for a model whose root is the object `r`: the root has
 no parent, and every object held by a containment attribute of an object `p` has
 `parent = p`. -/
-theorem C05_parent (mm : Nat → List MetaAttr) (root : PT) (r : Nat) (s : St)
-    (h : build mm root = some (.obj r, s)) :
+theorem C05_parent (tr : Heap → Nat → Bool) (mm : Nat → List MetaAttr) (root : PT) (r : Nat) (s : St)
+    (h : build tr mm root = some (.obj r, s)) :
     parentOf s.heap r = none ∧ ∀ p c, c ∈ contIds s.heap p → parentOf s.heap c = some p := by
-  have hp := processNode_post mm root St.empty (.obj r) s Inv.empty h
+  have hp := processNode_post tr mm root St.empty (.obj r) s Inv.empty h
   refine ⟨?_, hp.1.inv.tree.parent_of_cont⟩
   have := (hp.2 r rfl).parent
   simpa [St.empty] using this
@@ -44,11 +52,11 @@ theorem C05_parent (mm : Nat → List MetaAttr) (root : PT) (r : Nat) (s : St)
 /-- **get_model.**  For every object `x` of the built model that is contained (transitively) in
 the root `r` — and for `r` itself — `get_model(x)` is `r` (any fuel above `x` suffices: the
 parent chain strictly decreases). -/
-theorem C05_get_model (mm : Nat → List MetaAttr) (root : PT) (r : Nat) (s : St)
-    (h : build mm root = some (.obj r, s)) (x : Nat) (hx : Reach s.heap (fun _ => true) r x)
+theorem C05_get_model (tr : Heap → Nat → Bool) (mm : Nat → List MetaAttr) (root : PT) (r : Nat) (s : St)
+    (h : build tr mm root = some (.obj r, s)) (x : Nat) (hx : Reach s.heap (fun _ => true) r x)
     (fuel : Nat) (hf : x < fuel) : getModel s.heap fuel x = some r := by
-  have hT := (C05_build_tree mm root _ s h).1
-  exact getModel_of_reach hT (C05_parent mm root r s h).1 hx fuel hf
+  have hT := (C05_build_tree tr mm root _ s h).1
+  exact getModel_of_reach hT (C05_parent tr mm root r s h).1 hx fuel hf
 
 /-- **get_children returns nothing twice** (any selector, any `should_follow`, both orders,
 any root, any fuel). -/
@@ -173,16 +181,37 @@ def exTree : PT :=
     .nt (.asgn 0 .many) [exKid 2 [.nt (.asgn 3 .plain) [exKid 4 []]], exKid 6 []],
     .nt (.asgn 1 .plain) [exKid 8 []]]
 
-def exHeap : Heap := match build exMM exTree with
+/-- every object truthy (generic textX classes) -/
+def exTruthy : Heap → Nat → Bool := fun _ _ => true
+
+def exHeap : Heap := match build exTruthy exMM exTree with
   | some (_, s) => s.heap
   | none => []
 
-example : (build exMM exTree).map (·.1) = some (.obj 0) := by decide
+example : (build exTruthy exMM exTree).map (·.1) = some (.obj 0) := by decide
 example : (exHeap.map (·.parent)) = [none, some 0, some 1, some 0, some 0] := by decide
 example : getChildren exHeap (fun _ => true) (fun _ => true) false 5 0 = [0, 1, 2, 3, 4] := by decide
 example : getChildren exHeap (fun x => x != 1) (fun _ => true) true 5 0 = [2, 3, 4, 0] := by decide
 example : getChildren exHeap (fun _ => true) (fun x => x != 1) false 5 0 = [0, 3, 4] := by decide
 example : getParentOfType exHeap 0 5 2 = some (some 0) := by decide
 example : getModel exHeap 5 2 = some 0 := by decide
+
+/-! Falsy objects (a user class with `__bool__` / `__len__`).  A parse tree that assigns the
+single-valued containment attribute `other` twice: with truthy kids the "Multiple assignments"
+guard stops the load; when `Kid` instances are falsy the guard does not see the first kid, the
+second assignment replaces it — the first kid keeps its `parent` but is in no attribute, and
+the heap is still a containment tree (`C05_build_tree` covers both). -/
+def exTwice : PT :=
+  .nt (.obj 0) [.term 0 1 false true, .nt (.asgn 1 .plain) [exKid 2 []], .nt (.asgn 1 .plain) [exKid 4 []]]
+
+/-- instances of class 1 are falsy while their `sub` is empty (container-like `__len__`) -/
+def exEmptyFalsy : Heap → Nat → Bool := fun h x =>
+  match h.get x with
+  | some o => o.cls != 1 || o.attrs.any (fun (m, v) => m.name == 3 && v != .one .none)
+  | none => true
+
+example : build exTruthy exMM exTwice = none := by decide
+example : (build exEmptyFalsy exMM exTwice).map (fun r => (contIds r.2.heap 0, r.2.heap.map (·.parent)))
+    = some ([2], [none, some 0, some 0]) := by decide
 
 end Obj
